@@ -18,7 +18,36 @@ int                verif_str_eq(char const *a, char const *b);
 // 1 iff `hay` contains `needle`; under the token model: iff the token log behind `hay` holds a CSTR token
 // with exactly the `needle` pointer, or a spliced string built from it
 int                verif_msg_has(char const *hay, char const *needle);
+// ---- message structure (model: watch summaries of the inserted tokens; native: substring search on the text).
+// Strings / numbers must be registered as watched BEFORE the operation that builds the message.
+// `msg` is what the library passed to the reporter / tracer (std::string::c_str()).
+unsigned           verif_watch_str(char const *s);                 // returns the watch index
+unsigned           verif_watch_num(unsigned long v);
+unsigned           verif_msg_cnt(char const *msg, unsigned i);     // occurrences of watched string i
+unsigned           verif_msg_ncnt(char const *msg, unsigned i);    // occurrences of watched number i (as a whole number)
+int                verif_msg_before(char const *msg, unsigned i, unsigned j);   // first i precedes first j, both occur
+int                verif_msg_nbefore(char const *msg, unsigned i, unsigned j);  // same for watched numbers
+int                verif_msg_sbefore_n(char const *msg, unsigned i, unsigned j);// string i precedes number j
+int                verif_msg_starts(char const *msg, char const *lit);
+// ---- a std::ostringstream owned by the harness (C18)
+void               verif_stream_set(void *oss, unsigned long width, unsigned flags, unsigned char fill);
+unsigned long      verif_stream_width(void *oss);
+unsigned           verif_stream_flags(void *oss);
+unsigned           verif_stream_fill(void *oss);
+unsigned           verif_stream_cnt(void *oss, unsigned i);
+unsigned           verif_stream_ncnt(void *oss, unsigned i);
+unsigned           verif_stream_nl(void *oss);
+int                verif_stream_before(void *oss, unsigned i, unsigned j);
+#ifdef VERIF_SYMBOLIC
+unsigned           verif_stream_ntok(void *oss);
+unsigned           verif_stream_nnum(void *oss);
+unsigned long      verif_stream_numhash(void *oss);
+unsigned           verif_stream_fmtbad(void *oss);
+unsigned           verif_stream_hex2(void *oss);
+#endif
 }
+// the model's order-sensitive hash over numeric insertions (verif_stream_numhash): h' = VF_HASH(h, v), h0 = 0
+#define VF_HASH(h, v) ((((unsigned long)(h) << 7) | ((unsigned long)(h) >> 57)) ^ (unsigned long)(v) ^ 0x5bd1e995u)
 #define VASSERT(c, id) verif_assert((c) ? 1 : 0, id)
 // an obligation owned by property C<nn>; a check for one property compiles with -DVF_CLAIM=<nn> so that only its own
 // obligations (and the generated memory-safety checks) are in the query; VF_CLAIM=0 keeps all of them
